@@ -14,8 +14,9 @@
        * `DecodedInv.LimitRep RF` — the codec represents every value within the parse limit (theorem for the IEEE codec:
          `limitRep_float`);
        * `SvLaws` — the ARITHMETIC law: for `v` in `[0.1, 10]` (resp. `[0.01, 10]`, and `v = 1`) the inherited beat length
-         `−100 / v` the encoder writes is representable and within the beat-length limits (toy instance `ZC.svLaws`; true of
-         IEEE doubles — `−100/v ∈ [−10000, −10]` — but NOT proved here for `Float`).
+         `−100 / v` the encoder writes is representable and within the beat-length limits (toy instance `ZC.svLaws`; a
+         THEOREM for IEEE doubles: `svLaws_float`, Props/C04DecodedTimingIeee.lean, from the monotonicity of IEEE division in a
+         positive denominator, Lemmas/FloatDivAnti.lean).
   2. COLLECTED sample points (`collectSamples`): every point of the collected list is a stored sample point or
      `collect_sample(samples, time)` of one object, where `samples` is the object's own list or one of a slider's node lists
      (`collected_point_origin`). Its custom bank is the maximum over those samples, within ±(2³¹−1) by `DecodedObj.ObjOk` and
